@@ -80,14 +80,21 @@ def raised_class(p, f, st):
 
 
 def _guarded_by_throws(p, f, st):
-    """raise inside `if options['throws']:`"""
-    pm = p.parents(f)
-    n = st
-    while n is not None:
-        par = pm.get(n)
-        if isinstance(par, ast.If) and n in par.body and src_of(par.test) in ("options['throws']", "options.get('throws')"):
+    """raise reached only when options['throws'] is true (enclosing test or an earlier guard clause)"""
+    from .. import shape
+    pm = shape.parent_map(f.node)
+    facts = shape.implied(st, pm)
+    return any(pol and fs in ("options['throws']", "options.get('throws')") for fs, pol in facts)
+
+
+def _visitor_missing_branch(p, f, st):
+    """raise reached only when the visitor looked up in globals() is missing"""
+    from .. import shape
+    pm = shape.parent_map(f.node)
+    defs = shape.defs_of(f.node, params=f.params)
+    for fs, pol in shape.implied(st, pm):
+        if not pol and fs in defs and 'globals()' in src_of(defs[fs]) and '.get(' in src_of(defs[fs]):
             return True
-        n = par
     return False
 
 
@@ -103,7 +110,7 @@ def _check_raises(p, res, rname, entries, allowed, skip_guarded=True):
             if skip_guarded and _guarded_by_throws(p, f, st):
                 res.ok('%s: raise under options[throws] (call sites checked by EXC-THROWS)' % f.short)
                 continue
-            if f.qualname == 'emmet.abbreviation.stringify.stringify' and _enclosing_test_contains(p, f, st, 'not visitor'):
+            if f.qualname == 'emmet.abbreviation.stringify.stringify' and _visitor_missing_branch(p, f, st):
                 from ..report import RuleResult
                 tmp = RuleResult('EXC-VISITOR')
                 exc_visitor(p, tmp)
